@@ -9,9 +9,15 @@ OUTDEG = z3.Function('nx_outdeg', I, I, I)
 INDEG = z3.Function('nx_indeg', I, I, I)
 
 
+SUCC_CNT = z3.Function('nx_succ_cnt', I, I, IntArr)
+PRED_CNT = z3.Function('nx_pred_cnt', I, I, IntArr)
+NODES_CNT = z3.Function('nx_nodes_cnt', I, IntArr)
+
+
 def succ_list(eng, g, u, elem='any'):
-    x = z3.Int('nx_x')
-    l = ListObj(z3.Lambda([x], z3.If(EDGE(g, u, x), 1, 0)), OUTDEG(g, u), elem)
+    x = z3.Int(fresh_name('nxx'))
+    eng.st.assume(z3.ForAll([x], z3.Select(SUCC_CNT(g, u), x) == z3.If(EDGE(g, u, x), 1, 0)))
+    l = ListObj(SUCC_CNT(g, u), OUTDEG(g, u), elem)
     l.frozen = True
     eng.st.assume(OUTDEG(g, u) >= 0)
     y = z3.Int(fresh_name('nxy'))
@@ -20,8 +26,9 @@ def succ_list(eng, g, u, elem='any'):
 
 
 def pred_list(eng, g, v, elem='any'):
-    x = z3.Int('nx_x')
-    l = ListObj(z3.Lambda([x], z3.If(EDGE(g, x, v), 1, 0)), INDEG(g, v), elem)
+    x = z3.Int(fresh_name('nxx'))
+    eng.st.assume(z3.ForAll([x], z3.Select(PRED_CNT(g, v), x) == z3.If(EDGE(g, x, v), 1, 0)))
+    l = ListObj(PRED_CNT(g, v), INDEG(g, v), elem)
     l.frozen = True
     eng.st.assume(INDEG(g, v) >= 0)
     y = z3.Int(fresh_name('nxy'))
@@ -80,7 +87,7 @@ def pd_concat(eng, recv, args, node):
     return _new_frame(eng, total)
 
 
-REG.dep_classes['module:pd'] = {'DataFrame': pd_DataFrame, 'concat': pd_concat}
+REG.dep_classes['module:pd'] = {'DataFrame': pd_DataFrame, 'str_concat': pd_concat}
 
 
 # ---- numpy.random (assumed) ---------------------------------------------------------------------------------------------------
@@ -172,8 +179,9 @@ AT = z3.Function('at', I, I, I)
 def nx_topological_sort(eng, recv, args, node):
     """every node exactly once, every edge forward"""
     g = args[0].t
-    x = z3.Int('nx_tx')
-    l = ListObj(z3.Lambda([x], z3.If(NODE(g, x), 1, 0)), NUMNODES(g), 'any')
+    x = z3.Int(fresh_name('nxt'))
+    eng.st.assume(z3.ForAll([x], z3.Select(NODES_CNT(g), x) == z3.If(NODE(g, x), 1, 0)))
+    l = ListObj(NODES_CNT(g), NUMNODES(g), 'any')
     eng.st.assume(NUMNODES(g) >= 0)
     i, j = z3.Int(fresh_name('ti')), z3.Int(fresh_name('tj'))
     seq = l.seq
